@@ -662,6 +662,14 @@ CORPUS += [
     "64 cscr 5 4 3 0 2 3 3 0 3 1 3 1/2 1/3 1/5 2 1 3 3 tocsr tr tocscr",     # D6 (fixed): rows 0, 2, 4 empty
     "32 csr 2 3 0 0 0 3 perm 2 1 0 3 2 0 1 tocscr clone 3",               # D1 / D3 (fixed) in one chain
     "64 cscr 0 3 0 0 0 0 1 tocsr",                                        # c02-edge:D10
+    # CSR <-> banded on RECTANGULAR shapes (band of (i,j) = j - i + rows - 1; a seeded `cols - 1` variant is only right
+    # for square matrices): tall and wide, entries in the corners, both round trips
+    "32 csr 4 2 5 0 1 2 3 5 5 0 1 0 0 1 5 1/2 3/1 -5/7 2/1 7/3 3 tobanded tocsr tobanded",
+    "64 csr 2 4 3 0 2 5 5 0 3 0 2 3 5 1/2 3/1 -5/7 2/1 7/3 3 tobanded tocsr tr",
+    "32 csr 5 1 6 0 1 1 2 2 3 3 0 0 0 3 4/1 5/1 6/1 2 tobanded tocsr",
+    "32 csr 1 5 2 0 3 3 0 2 4 3 4/1 5/1 6/1 2 tobanded tocsr",
+    "64 banded 4 2 3 0 2 4 12 1/1 2/1 3/1 4/1 5/1 6/1 7/1 8/1 9/1 10/1 11/1 12/1 2 tocsr tobanded",
+    "64 banded 2 4 3 0 2 4 6 1/1 2/1 3/1 4/1 5/1 6/1 2 tocsr tobanded",
     "32 csr 2 3 0 0 0 1 graphz",                               # c02-edge:D5
     # cross-type clones (seeded change missed before: weak clone across index types aliasing the source's values)
     "32 csr 2 3 3 0 2 3 3 0 2 1 3 1/3 2/1 3/1 3 xclone 0 1 2 xclone 0 1 0 xclone 1 1 3",
@@ -1106,17 +1114,14 @@ def signature(case, out, why):
 
 
 def model_filter(case):
-    """the Lean model reproduces the aborts of D7 / D10 and the crash of D5 for `graph`"""
+    """the Lean model of the code as it is reproduces every open finding (aborts D7 / D10, crash D5)"""
     if is_vec(case):
         return True
     try:
         it, states, ops, tag, k = simulate(case)
     except Exception:
         return True
-    if tag is not None and tag.startswith("defect:") and tag.split(":")[1] == "D5":
-        # `Mat.stepCode` reproduces the crash of the plain `graph` operation; the `graphz` variant shows the intended result
-        return ops[k][0] == "graph"
-    return True
+    return True      # `Mat.stepCode` / `Mat.crashesX` reproduce the D5 crash of `graph` / `graphz`, the aborts are modelled
 
 
 
@@ -1289,8 +1294,8 @@ def main(argv):
         "round-to-nearest-even to 24 bits (what mpq_get_d and the C cast do); exponent range not exercised",
         "index-type round trip u32 <-> u64: every index that can occur is < 2^32 (dimensions of allocatable matrices), "
         "the model passes them through mod 2^32 (C02.stepX_itx_eq: identity when they fit)",
-        "input classes of the open known findings c02-edge:D5/D7/D10 are generated and judged (the model of the code "
-        "as it is reproduces them, except D5 through `graphz`)",
+        "input classes of the open known findings c02-edge:D5/D7/D10 are generated and judged; the model of the code "
+        "as it is reproduces all of them (aborts D7 / D10, crash D5 through `graph` and `graphz`)",
         "a target that is a shallow clone of the source may show the result in the source as well (documented sharing "
         "of the data arrays); every other source must be unchanged after a two-argument member call"],
         extra_cov={"rule": stats_rule})
